@@ -27,13 +27,13 @@ theorem foldBits_testBit (P : Base → Bool) (off j : Nat) :
   cases P 0 <;> cases P 1 <;> cases P 2 <;> cases P 3 <;>
     simp [Nat.testBit_or, Nat.one_shiftLeft, Nat.testBit_two_pow, eq_comm]
 
-theorem discoverExts_eq (keys : List Seq) (k : Seq) :
-    discoverExts keys k = ⟨foldBits (fun b => keys.contains (minRcFlip (extendLeft k b)).1) 0 |||
-      foldBits (fun b => keys.contains (minRcFlip (extendRight k b)).1) 4⟩ := rfl
+theorem discoverExts_eq (st : Bool) (keys : List Seq) (k : Seq) :
+    discoverExts st keys k = ⟨foldBits (fun b => keys.contains (canonSt st (extendLeft k b)).1) 0 |||
+      foldBits (fun b => keys.contains (canonSt st (extendRight k b)).1) 4⟩ := rfl
 
-/-- **discovered extensions**: base `b` on side `d` is recorded iff the canonical neighbour is one of the keys -/
-theorem has_discover (keys : List Seq) (k : Seq) (d : Dir) (b : Base) :
-    has (discoverExts keys k) d b ↔ (minRcFlip (extend k b d)).1 ∈ keys := by
+/-- **discovered extensions**: base `b` on side `d` is recorded iff the neighbour (its canonical form when unstranded) is one of the keys -/
+theorem has_discover (st : Bool) (keys : List Seq) (k : Seq) (d : Dir) (b : Base) :
+    has (discoverExts st keys k) d b ↔ (canonSt st (extend k b d)).1 ∈ keys := by
   rw [has_iff, discoverExts_eq]
   simp only [Nat.testBit_or, foldBits_testBit]
   rcases b with ⟨v, hv⟩
@@ -70,25 +70,25 @@ theorem foldBits_lt (P : Base → Bool) (off : Nat) (hoff : off + 4 ≤ 8) : fol
       | (repeat (first | apply Nat.or_lt_two_pow | exact z | exact hb _ (by decide)))
 
 /-- the table `compress_kmers_no_exts` builds from a list of (k-mer, payload) pairs -/
-def noExtsTable (kd : List (Seq × D)) : Table D :=
-  kd.map fun p => ⟨p.1, discoverExts (kd.map (·.1)) p.1, p.2⟩
+def noExtsTable (st : Bool) (kd : List (Seq × D)) : Table D :=
+  kd.map fun p => ⟨p.1, discoverExts st (kd.map (·.1)) p.1, p.2⟩
 
-theorem noExts_keys (kd : List (Seq × D)) : (noExtsTable kd).map (·.key) = kd.map (·.1) := by
+theorem noExts_keys (st : Bool) (kd : List (Seq × D)) : (noExtsTable st kd).map (·.key) = kd.map (·.1) := by
   unfold noExtsTable; simp [List.map_map, Function.comp_def]
 
-/-- **the table of `compress_kmers_no_exts` is well-formed and reciprocal** (unstranded; distinct canonical k-mers) -/
-theorem noExts_table_ok (K : Nat) (hK : 1 ≤ K) (kd : List (Seq × D)) (hlen : ∀ p ∈ kd, p.1.length = K)
-    (hnd : (kd.map (·.1)).Nodup) (hcan : ∀ p ∈ kd, ¬ rc p.1 < p.1) :
-    WF (noExtsTable kd) K false ∧ ExtSym2 (noExtsTable kd) false := by
-  have hget : ∀ (x : Nat) (e : Entry D), (noExtsTable kd)[x]? = some e →
-      ∃ p, kd[x]? = some p ∧ e = ⟨p.1, discoverExts (kd.map (·.1)) p.1, p.2⟩ := by
+/-- **the table of `compress_kmers_no_exts` is well-formed and reciprocal** (distinct k-mers; canonical ones when unstranded) -/
+theorem noExts_table_ok (st : Bool) (K : Nat) (hK : 1 ≤ K) (kd : List (Seq × D)) (hlen : ∀ p ∈ kd, p.1.length = K)
+    (hnd : (kd.map (·.1)).Nodup) (hcan : st = false → ∀ p ∈ kd, ¬ rc p.1 < p.1) :
+    WF (noExtsTable st kd) K st ∧ ExtSym2 (noExtsTable st kd) st := by
+  have hget : ∀ (x : Nat) (e : Entry D), (noExtsTable st kd)[x]? = some e →
+      ∃ p, kd[x]? = some p ∧ e = ⟨p.1, discoverExts st (kd.map (·.1)) p.1, p.2⟩ := by
     intro x e h
     unfold noExtsTable at h
     rw [List.getElem?_map] at h
     cases hp : kd[x]? with
     | none => rw [hp] at h; cases h
     | some p => rw [hp] at h; exact ⟨p, rfl, by simpa using h.symm⟩
-  have wf : WF (noExtsTable kd) K false := by
+  have wf : WF (noExtsTable st kd) K st := by
     refine ⟨hK, ?_, ?_, ?_, ?_⟩
     · intro x e h
       obtain ⟨p, hp, rfl⟩ := hget x e h
@@ -108,9 +108,9 @@ theorem noExts_table_ok (K : Nat) (hK : 1 ≤ K) (kd : List (Seq × D)) (hlen : 
       · have := hnd y x (by simpa using ly) (by simpa using lx) h
         simp only [List.getElem_map] at this
         exact absurd hk.symm this
-    · intro _ x e h
+    · intro hst x e h
       obtain ⟨p, hp, rfl⟩ := hget x e h
-      exact hcan p (List.mem_of_getElem? hp)
+      exact hcan hst p (List.mem_of_getElem? hp)
     · intro x e h
       obtain ⟨p, hp, rfl⟩ := hget x e h
       rw [discoverExts_eq]
@@ -126,8 +126,7 @@ theorem noExts_table_ok (K : Nat) (hK : 1 ≤ K) (kd : List (Seq × D)) (hlen : 
   rw [has_discover]
   have hne : p.1 ≠ [] := by
     intro e; have := hlen p (List.mem_of_getElem? hp); rw [e] at this; simp at this; omega
-  have hback := Filter.canon_back_key (st := false) (x := p.1) (b := b) (d := d) hne (fun _ => hcan p (List.mem_of_getElem? hp))
-  simp only [canonSt, Bool.false_eq_true, if_false] at hback hkey ⊢
+  have hback := Filter.canon_back_key (st := st) (x := p.1) (b := b) (d := d) hne (fun hst => hcan hst p (List.mem_of_getElem? hp))
   rw [hkey, hback]
   exact List.mem_map_of_mem (List.mem_of_getElem? hp)
 
